@@ -62,8 +62,10 @@ def install_probes():
 # ---------------------------------------------------------------------------------------------
 # tables
 # ---------------------------------------------------------------------------------------------
-def gen_table(rng, maxn=10, streams=("v1", "v2"), axes=None, index_kind=None):
-    """Logical table: times (whole seconds, strictly increasing), columns of Fractions/None."""
+def gen_table(rng, maxn=10, streams=("v1", "v2"), axes=None, index_kind=None, allow_nat=False):
+    """Logical table: times (whole seconds, strictly increasing), columns of Fractions/None.  With `allow_nat` some tables
+    get rows whose timestamp is NaT (`tab["nat"]`: row numbers; `tab["t"]` keeps a nominal instant there, used only to lay
+    out windows)."""
     n = rng.choice([0, 1, 2, 3]) if rng.random() < 0.2 else rng.randint(4, maxn)
     step = rng.choice([60, 60, 600, 3600])
     t = [BASE_T + i * step + (rng.choice([0, 0, 1, 7]) if i and rng.random() < 0.3 else 0) for i in range(n)]
@@ -90,7 +92,10 @@ def gen_table(rng, maxn=10, streams=("v1", "v2"), axes=None, index_kind=None):
         t = [t[i] for i in order]
         cols = {s_: [v[i] for i in order] for s_, v in cols.items()}
         ax = {a_: [v[i] for i in order] for a_, v in ax.items()}
-    return {"n": n, "t": t, "cols": cols, "axes": ax, "index_kind": index_kind}
+    nat = []
+    if allow_nat and n >= 2 and rng.random() < 0.25:
+        nat = [rng.randrange(n)]      # one row: a second NaT would be a duplicated time label, which xarray's .sel rejects
+    return {"n": n, "t": t, "cols": cols, "axes": ax, "index_kind": index_kind, "nat": nat}
 
 
 def table_index(tab):
@@ -114,7 +119,10 @@ def fl_masked(vals):
 
 
 def times_ns(tab):
-    return (np.array(tab["t"], dtype="int64") * 1_000_000_000).astype("datetime64[ns]")
+    a = (np.array(tab["t"], dtype="int64") * 1_000_000_000).astype("datetime64[ns]")
+    for i in tab.get("nat", ()):
+        a[i] = np.datetime64("NaT")
+    return a
 
 
 def make_df(tab):
@@ -189,7 +197,9 @@ def iso(sec):
 def spec_masks(drv, tab, wins):
     """IoosQc.specMask for every window; instants travel in half seconds so that bounds between two rows are integers."""
     sc2 = lambda v: None if v is None else int(F(v) * 2)  # noqa: E731
-    a, = drv.run([{"kind": "window", "t": [int(t) * 2 for t in tab["t"]], "windows": [[sc2(w[0]), sc2(w[1])] for w in wins]}])
+    nat = set(tab.get("nat", ()))
+    a, = drv.run([{"kind": "window", "t": [None if i in nat else int(t) * 2 for i, t in enumerate(tab["t"])],
+                   "windows": [[sc2(w[0]), sc2(w[1])] for w in wins]}])
     return a["spec"]
 
 
